@@ -692,5 +692,8 @@ Definition lit_ok (t : text) : Prop :=
   t <> [] /\ Forall (fun c => ((c =? COMMA) || (c =? LBRACE) || (c =? RBRACE) || (c =? QUOTE) || is_open c || is_space c) = false) t.
 (* the key pattern does not occur in s before position n *)
 Definition no_occ_before (p s : text) (n : nat) : Prop := forall k, (k < n)%nat -> prefixb p (skipn k s) = false.
-Fixpoint no_occ_beforeb (p s : text) (n : nat) : bool :=
-  match n with O => true | S n' => match s with [] => true | _ :: t => negb (prefixb p s) && no_occ_beforeb p t n' end end.
+Fixpoint no_occ_beforeb (p s : text) (n : nat) {struct n} : bool :=
+  match n with
+  | O => true
+  | S n' => negb (prefixb p s) && match s with [] => true | _ :: t => no_occ_beforeb p t n' end
+  end.
